@@ -16,6 +16,7 @@ spec  : `Nri.Generate.Check.checkAll` on every successful result + determinism +
 -/
 import Driver.Common
 import NriModel.Generate
+import NriModel.GenerateOptions
 import NriModel.Lemmas.GenerateSpec
 open Lean Drv Nri Nri.Api Nri.Generate
 
@@ -130,7 +131,43 @@ def decAdj (j : Json) : Except String Adjustment := do
          hooks := hooks, linux := linux, rlimits := ← arr j "rlimits" decApiRlimit,
          cdiDevices := ← strs j "cdi", args := ← strs j "args" }
 
+/-- one of the runtime's two callbacks, in the vocabulary of harness/c13/types.go: CallbackJ -/
+structure Callback where
+  kind : String
+  arg : Str
+  n : Int
+
+def decCallback (j : Json) (k : String) : Except String (Option Callback) :=
+  match getOpt j k with
+  | none => pure none
+  | some c => pure (some { kind := getStrD c "kind", arg := S (getStrD c "arg"), n := getIntD c "n" })
+
+/-- `WithAnnotationFilter` callbacks of the harness -/
+def filterOf : Option Callback → Option (AList Str Str → Except Unit (AList Str Str))
+  | none => none
+  | some c => some fun l =>
+    if c.kind == "drop" then .ok (l.filter fun e => !(c.arg.isPrefixOf e.1))
+    else if c.kind == "reject" then (if l.any (fun e => c.arg.isPrefixOf e.1) then .error () else .ok l)
+    else .ok l
+
+/-- `WithResourceChecker` callbacks of the harness; `rNil`: the callback was handed a nil
+    `*LinuxResources` (the spec had no resources section and no setter created one), observed. -/
+def checkerOf (rNil : Bool) : Option Callback → Option (Oci.Spec → Except Unit Oci.Spec)
+  | none => none
+  | some c => some fun s =>
+    if c.kind == "fail" then .error ()
+    else if c.kind == "failPidsGt" then
+      (match s.pids with | some p => if p > c.n then .error () else .ok s | none => .ok s)
+    else if c.kind == "capShares" then
+      if c.n < 0 then .ok s else
+      .ok { s with cpu := { s.cpu with shares := s.cpu.shares.map fun v => if v > c.n.toNat then c.n.toNat else v } }
+    else if c.kind == "setPids" then (if rNil then .ok s else .ok { s with pids := some c.n })
+    else if c.kind == "clearUnified" then (if rNil then .ok s else .ok { s with unified := [] })
+    else .ok s
+
 structure ExtIn where
+  filter : Option Callback := none
+  check : Option Callback := none
   blockio : List (Str × Nat)
   rdt : AList Str Str
   cdiBad : List Str
@@ -143,7 +180,8 @@ def decExt (j : Json) : Except String ExtIn := do
   let bio ← match j.getObjVal? "blockio" with
     | .ok (Json.obj kvs) => kvs.toList.mapM fun (k, v) => do pure (S k, ← v.getNat?)
     | _ => pure []
-  pure { blockio := bio, rdt := ← strMap j "rdt", cdiBad := ← strs j "cdiBad",
+  pure { filter := ← decCallback j "filter", check := ← decCallback j "check",
+         blockio := bio, rdt := ← strMap j "rdt", cdiBad := ← strs j "cdiBad",
          hostProp := ← strMap j "hostProp", noInjector := getBoolD j "noInjector",
          noBlockio := getBoolD j "noBlockio", noRdt := getBoolD j "noRdt" }
 
@@ -185,6 +223,9 @@ def diffFields (a b : Oci.Spec) : List String :=
 
 def errName : GenError → String
   | .cdi => "cdi" | .blockio => "blockio" | .rdt => "rdt" | .mountPropagation => "other"
+
+def optErrName : OptError → String
+  | .annotationFilter => "filter" | .resourceCheck => "check" | .gen e => errName e
 
 /-- all permutations -/
 def perms {α : Type} : List α → List (List α)
@@ -265,6 +306,120 @@ def touches (a : Adjustment) : Bool :=
 structure Out where
   err : String
   spec : Oci.Spec
+  checkCalls : Nat := 0
+  checkSaw : Option Oci.Spec := none
+  checkNil : Bool := false
+  filterCalls : Nat := 0
+
+/-- Cases with the runtime's callbacks (`WithAnnotationFilter` / `WithResourceChecker`): the model
+    is `adjustWith`; the property is read on the implementation's own observation — the error
+    class the input (and what the checker was shown) calls for, `checkAll` for the FILTERED
+    adjustment on the result with the resources section as the checker found it, and the
+    resources section of the result = what the checker returned for what it was shown. -/
+def judgeOpts (kind : String) (s : Oci.Spec) (a : Adjustment) (e : ExtIn) (outs : List Out)
+    (restSame : Bool) (panic : String) : Verdict :=
+  let rNil := outs.any (·.checkNil)
+  let o : Generate.Options := { filterAnnotations := filterOf e.filter, checkResources := checkerOf rNil e.check }
+  let ext := e.toExternals
+  let m := adjustWith o ext s a
+  let sees := checkerSees o ext s a
+  let agreeOut := match outs, m with
+    | [out], .ok ms => out.err == "" && specEqv ms out.spec
+    | [out], .error me => out.err == optErrName me
+    | _, _ => false
+  let agreeCalls := match outs with
+    | [out] =>
+      out.filterCalls == (if e.filter.isSome then 1 else 0) &&
+      (match sees, out.checkSaw with
+        | some x, some y => specEqv x y && out.checkCalls == 1
+        | none, none => out.checkCalls == 0
+        | _, _ => false)
+    | _ => false
+  let agree := agreeOut && agreeCalls
+  let filtered := filterStage o a.annotations
+  let a' : Adjustment := match filtered with | .ok ann => { a with annotations := ann } | .error _ => a
+  let guard := Check.guardViolated s a'
+  let expErr : String := match filtered with
+    | .error _ => "filter"
+    | .ok _ =>
+      let base := expectedErr s a' e
+      if base == "cdi" then base else
+      match a'.resources, o.checkResources, (outs.head?.bind (·.checkSaw)) with
+      | some _, some chk, some saw => (match chk saw with | .error _ => "check" | .ok _ => base)
+      | _, _, _ => base
+  let bio : Option (Str → Option Nat) := if e.noBlockio then none else some (lookupNat e.blockio)
+  let rdt : Option (Str → Option Str) := if e.noRdt then none else some (AList.lookup e.rdt)
+  let perOut : List Check.Fail := outs.flatMap fun out =>
+    if out.err != expErr then
+      [{ sig := "C13:error-class", why := s!"Adjust returned error class \"{out.err}\" where the input (with the runtime's callbacks) calls for \"{expErr}\"" }]
+    else if out.err != "" then []
+    else
+      match out.checkSaw, o.checkResources with
+      | some saw, some chk =>
+        -- the property of the adjustment itself, on the result with the resources as the checker found them
+        let o' := { out.spec with cpu := saw.cpu, memory := saw.memory, hugepages := saw.hugepages,
+                                  unified := saw.unified, pids := saw.pids }
+        Check.checkAll s a' o' (!e.noInjector) bio rdt ++
+        (match chk saw with
+          | .ok after =>
+            if out.spec.cpu = after.cpu && out.spec.memory = after.memory && out.spec.hugepages = after.hugepages &&
+               alistEqv out.spec.unified after.unified && out.spec.pids = after.pids then []
+            else [{ sig := "C13:options:checker-result-lost",
+                    why := "the resources section of the result is not what the resource checker returned for what it was shown" }]
+          | .error _ => [])
+      | _, _ => Check.checkAll s a' out.spec (!e.noInjector) bio rdt
+  let callFail : List Check.Fail := outs.flatMap fun out =>
+    (if a'.resources.isNone && out.checkCalls != 0 then
+      [{ sig := "C13:options:checker-without-resources", why := "the resource checker ran although the adjustment has no resources section" }] else []) ++
+    (if a'.resources.isSome && o.checkResources.isSome && out.checkCalls == 0 && out.err != "cdi" && out.err != "filter"
+        && expectedErr s a' e != "cdi" && (match filtered with | .ok _ => true | .error _ => false) then
+      [{ sig := "C13:options:checker-not-called", why := "the adjustment has a resources section and the runtime installed a resource checker, yet the checker never ran" }] else []) ++
+    (if out.checkCalls > 1 then
+      [{ sig := "C13:options:checker-twice", why := s!"the resource checker ran {out.checkCalls} times in one Adjust" }] else [])
+  let detFail : List Check.Fail := match outs with
+    | o1 :: o2 :: _ =>
+      let d := if o1.err != o2.err then ["error"] else diffFields o1.spec o2.spec
+      [{ sig := "C13:" ++ ",".intercalate d ++ ":order-dependent",
+         why := s!"{outs.length} different results over the repeated runs of the same input; they differ in {d}" }]
+    | _ => []
+  let restFail : List Check.Fail :=
+    (if restSame then [] else [{ sig := "C13:frame:rest-of-spec", why := "a part of the spec no adjustment field names was changed" }]) ++
+    (if panic == "" then [] else [{ sig := "C13:panic", why := s!"Adjust panicked: {panic}" }])
+  let fails := perOut ++ callFail ++ detFail ++ restFail
+  let fails := fails.filter (fun f => !f.recorded) ++ fails.filter (fun f => f.recorded)
+  let excluded := guard.isSome
+  let spec := fails.isEmpty
+  let first := fails.head?
+  let why :=
+    if !spec && !excluded then (match first with | some f => f.why | none => "")
+    else if !agree then
+      (match outs, m with
+        | [out], .ok ms => if out.err == "" then s!"model (adjustWith) and implementation differ in {diffFields ms out.spec}" else s!"implementation failed ({out.err}), model succeeds"
+        | [out], .error me => s!"model fails ({optErrName me}), implementation: \"{out.err}\""
+        | _, _ => s!"{outs.length} distinct implementation results; the model is deterministic") ++
+      (if !agreeCalls then "; callback invocations (count, or the spec the checker was shown) differ from the model" else "") ++
+      (match guard with | some g => s!" [{g}]" | none => "")
+    else ""
+  let fk := match e.filter with | some c => c.kind | none => "none"
+  let ck := match e.check with | some c => c.kind | none => "none"
+  let cover := [s!"kind:{kind}", if excluded then "domain:excluded" else "domain:in", s!"outs:{outs.length}", s!"err:{expErr}",
+                s!"opt:filter:{fk}", s!"opt:check:{ck}",
+                s!"opt:checker-called:{sees.isSome}"] ++
+               (match filtered with
+                | .ok ann => if ann.length != a.annotations.length then ["opt:filter:dropped-some"] else []
+                | .error _ => ["opt:filter:rejected"]) ++
+               (match sees, o.checkResources with
+                | some x, some chk => (match chk x with
+                    | .ok y => if y != x then ["opt:check:edited"] else ["opt:check:unchanged"]
+                    | .error _ => ["opt:check:refused"])
+                | _, _ => []) ++
+               (if rNil then ["opt:check:nil-resources"] else []) ++ coverTags s a
+  { agree := agree, spec := spec || excluded, why := why, cover := cover,
+    nontrivial := touches a && !excluded, excluded := excluded,
+    sig := match guard with
+      | some g => g
+      | none => (match first with | some f => f.sig | none => ""),
+    model := Json.null }
 
 def judge (j : Json) : Except String Verdict := do
   let inp ← getObj j "in"
@@ -275,9 +430,15 @@ def judge (j : Json) : Except String Verdict := do
   let e ← decExt (← getObj inp "ext")
   let outs ← arr obs "outs" (fun o => do
     let err ← getStr o "err"
-    pure ({ err := err, spec := ← decSpec (← getObj o "spec") } : Out))
+    let saw ← match getOpt o "checkSaw" with
+      | some sj => do pure (some (← decSpec sj))
+      | none => pure none
+    pure ({ err := err, spec := ← decSpec (← getObj o "spec"), checkCalls := getNatD o "checkCalls",
+            checkSaw := saw, checkNil := getBoolD o "checkNil", filterCalls := getNatD o "filterCalls" } : Out))
   let restSame := getBoolD obs "restSame" true
   let panic := getStrD obs "panic"
+  if e.filter.isSome || e.check.isSome then
+    return judgeOpts kind s a e outs restSame panic
   let ext := e.toExternals
   -- model (repaired code), under every iteration order of the two maps
   let m := adjust ext s a
